@@ -66,6 +66,16 @@ def check_face_normal_native(p, profile='debug'):
     return None
 
 
+def known_findings(run):
+    """re-observe the listed genuine defects natively"""
+    import os
+    for k in engine.load_known('C04'):
+        sc = json.load(open(os.path.join(engine.VERIF, k['input'])))
+        v = [x for x in OR.violations(sc, 'release', only=('C04',), include_known=True) if 'closed surface' in x[1] or 'divergence' in x[1]]
+        if v:
+            run.known_seen.append('%s: %s' % (k['key'], v[0][1]))
+
+
 def check(run):
     funcs, info = engine.load_mir('ibig')
     run.mir_info.append(info)
@@ -74,6 +84,9 @@ def check(run):
     run.guard(GR.cuboid, funcs, 'C04')
     run.guard(GR.build_loop, funcs, 'C04')
     run.guard(GR.face_integral, funcs, 'C04')
+    from . import staterules as SR
+    run.guard(SR.integrator_with_faces, funcs, 'C04')    # a cell stays a closed surface through build(mask) -> with_faces() -> Voronoi::from
+    run.guard(known_findings)
     run.assume('closure of the cell surface and the divergence identity need the whole float pipeline: outside')
     return run.finish(LEVEL, EXPLANATION, trusted=['rustc -Zunpretty=mir', 'z3 5.1.0 / 4.8.12, cvc5 1.0.3', 'glam / std models of mirsym'])
 
@@ -84,6 +97,9 @@ def replay(path):
         return C03.replay(path)
     if d['kind'] == 'scenario':
         return OR.replay(d)
+    if d['kind'] == 'integrator_with_faces':
+        from . import staterules as SR
+        return SR.replay(d)
     if d['kind'] == 'face_normal':
         bad = check_face_normal_native(d)
         print(bad)
